@@ -941,10 +941,15 @@ class stubs(object):
 # symbolic containers
 
 class SymMem(object):
-    """dict-protocol memory contents backed by a z3 array BV(addrwidth) -> BV(bitwidth)"""
+    """dict-protocol memory contents backed by a z3 array BV(addrwidth) -> BV(bitwidth).
 
-    def __init__(self, arr, addrwidth, bitwidth):
+    `present` (optional z3 array addr -> Bool) models WHICH KEYS the dict holds: a sparse dict built from concrete words has
+    exactly those keys, `addr in mem` and `mem.get(addr, default)` answer accordingly, and a store adds the key. Without it
+    (arbitrary initial contents) every key is present."""
+
+    def __init__(self, arr, addrwidth, bitwidth, present=None):
         self.arr, self.aw, self.bw = arr, addrwidth, bitwidth
+        self.present = present
 
     @staticmethod
     def fresh(name, addrwidth, bitwidth):
@@ -958,6 +963,7 @@ class SymMem(object):
     @staticmethod
     def from_dict(d, default, addrwidth, bitwidth):
         m = SymMem.const(default, addrwidth, bitwidth)
+        m.present = z3.K(z3.BitVecSort(addrwidth), z3.BoolVal(False))
         for a, v in d.items():
             m[a] = v
         return m
@@ -975,20 +981,35 @@ class SymMem(object):
         return 0
 
     def get(self, addr, default=None):
-        return SymInt.mk(z3.Select(self.arr, to_bv(addr, self.aw)), False)
+        a = to_bv(addr, self.aw)
+        word = z3.Select(self.arr, a)
+        if self.present is not None and default is not None and (is_sym(default) or _bi_isinstance(default, _bi_int)):
+            # an absent key reads the caller's default (the array already holds the construction default there, so the two
+            # agree unless the code passes a different one)
+            word = z3.If(z3.Select(self.present, a), word, to_bv(default, self.bw))
+        return SymInt.mk(word, False)
 
     def __getitem__(self, addr):
-        return self.get(addr)
+        return SymInt.mk(z3.Select(self.arr, to_bv(addr, self.aw)), False)
 
     def __setitem__(self, addr, val):
-        pc = current_pc() if _STACK and _STACK[-1].lazy else None
-        self.arr = z3.Store(self.arr, to_bv(addr, self.aw), to_bv(val, self.bw))
+        a = to_bv(addr, self.aw)
+        self.arr = z3.Store(self.arr, a, to_bv(val, self.bw))
+        if self.present is not None:
+            self.present = z3.Store(self.present, a, z3.BoolVal(True))
 
     def __contains__(self, addr):
-        return True
+        if self.present is None:
+            return True
+        t = z3.simplify(z3.Select(self.present, to_bv(addr, self.aw)))
+        if z3.is_true(t):
+            return True
+        if z3.is_false(t):
+            return False
+        return bool(SymBool(t))      # a fork point, like any other comparison
 
     def copy(self):
-        return SymMem(self.arr, self.aw, self.bw)
+        return SymMem(self.arr, self.aw, self.bw, self.present)
 
     def __deepcopy__(self, memo):
         return self.copy()
@@ -1001,8 +1022,8 @@ class TrackMem(SymMem):
     creates - aliasing vs. copying - are the real ones): remembers the concrete initial words and every write made through it;
     a copy/deepcopy is an independent snapshot"""
 
-    def __init__(self, arr, addrwidth, bitwidth, init=None, default=0, writes=None):
-        SymMem.__init__(self, arr, addrwidth, bitwidth)
+    def __init__(self, arr, addrwidth, bitwidth, init=None, default=0, writes=None, present=None):
+        SymMem.__init__(self, arr, addrwidth, bitwidth, present)
         self.init = dict(init or {})
         self.default = default
         self.writes = list(writes or [])
@@ -1010,7 +1031,7 @@ class TrackMem(SymMem):
     @staticmethod
     def from_words(d, default, addrwidth, bitwidth):
         m = SymMem.from_dict(d, default, addrwidth, bitwidth)
-        return TrackMem(m.arr, addrwidth, bitwidth, init=d, default=default)
+        return TrackMem(m.arr, addrwidth, bitwidth, init=d, default=default, present=m.present)
 
     def items(self):
         return iter(list(self.init.items()) + list(self.writes))
@@ -1037,7 +1058,7 @@ class TrackMem(SymMem):
         self.writes.append((addr, val))
 
     def copy(self):
-        return TrackMem(self.arr, self.aw, self.bw, init=self.init, default=self.default, writes=self.writes)
+        return TrackMem(self.arr, self.aw, self.bw, init=self.init, default=self.default, writes=self.writes, present=self.present)
 
     def __deepcopy__(self, memo):
         return self.copy()
